@@ -17,7 +17,7 @@ func init() {
 // sibProbe is a development aid: prints every sibling group that does not fully unify.
 func sibProbe(r *core.Run) {
 	w := r.W
-		for _, fam := range []*core.Family{famF, famF64} {
+	for _, fam := range []*core.Family{famF, famF64} {
 		gs := w.SiblingGroups(fam)
 		nd := 0
 		for _, g := range gs {
